@@ -75,14 +75,31 @@ def observe(db, rev):
     def sig(s):
         return [rev.get(id(s), -1), s.name, s.size, attrs(s.attributes), s.start_bit * 2 + int(bool(s.is_signed))]
 
-    return dict(
+    return canon_nf(dict(
         frames=[[rev.get(id(f), -1), f.name, attrs(f.attributes), f.arbitration_id.id * 16 + f.size, [sig(s) for s in f.signals]]
                 for f in db.frames],
         ecus=[[int(e.name[1:]), attrs(e.attributes)] for e in db.ecus],
         free=[sig(s) for s in db.signals],
         fdefs=[[int(k[2:]), int(d.max)] for k, d in db.frame_defines.items()],
         edefs=[[int(k[2:]), int(d.max)] for k, d in db.ecu_defines.items()],
-        sdefs=[[int(k[2:]), int(d.max)] for k, d in db.signal_defines.items()])
+        sdefs=[[int(k[2:]), int(d.max)] for k, d in db.signal_defines.items()]))
+
+
+def canon_nf(nf):
+    """dict-like parts (attributes of an object, the three define tables) sorted by key: the property fixes no order for them
+    (list-like parts - frames of the matrix, signals of a frame - keep their order)"""
+    r = copy_nf(nf)
+    for f in r["frames"]:
+        f[2].sort()
+        for s in f[4]:
+            s[3].sort()
+    for e in r["ecus"]:
+        e[1].sort()
+    for s in r["free"]:
+        s[3].sort()
+    for cat in ("fdefs", "edefs", "sdefs"):
+        r[cat].sort()
+    return r
 
 
 def codes(s):
@@ -194,6 +211,8 @@ def in_envelope(nf, op):
         return False
     if op[0] in ("rensig", "renframe") and (op[1] == "" or op[2] == ""):
         return False
+    if op[0] == "delframeobj" and not any(f[0] == op[1] for f in nf["frames"]):
+        return False                      # a Frame object that is not in the matrix: no name, no pattern, nothing the property speaks of
     return True
 
 
@@ -470,8 +489,9 @@ def corpus():
 def run(chk):
     chk.rule = ("matrices of 0-4 frames x 0-6 signals (zero-width with probability .2/.5/.8 per frame, so adjacent ones are frequent), "
                 "0-3 ECUs, 0-2 free signals, 4 attribute names per category used with probability .15/.3/.5 per object and defined with "
-                "probability .6/.9/1; names of 1-3 characters over {a,b[,c]} (stream 'star': also '*'; stream 'dup': duplicates allowed, tie "
-                "only); patterns derived from existing names (prefix*, *suffix, ?, *) or random over {a,b,*,?}; single calls of all ten "
+                "probability .6/.9/1; names of 1-3 characters over {a,b[,c]} (stream 'star': also '*'); a history ends where it would leave the quantifier (a rename produced "
+                "duplicate names, an empty name or pattern, a Frame object that is not in the matrix) - nothing outside it is run, judged or tied; "
+                "dict-like parts (attributes, define tables) and lookup results are compared without order; patterns derived from existing names (prefix*, *suffix, ?, *) or random over {a,b,*,?}; single calls of all ten "
                 "operations and histories of 2-5 operations; all zero/non-zero width vectors up to length 6; the corpus of minimal shapes "
                 "first.  non-trivial = the operation changes the matrix (for histories: at least two steps do); distinct by "
                 "(matrix, operations)")
@@ -494,12 +514,20 @@ def run(chk):
     def run_history(nf0, ops, stream, record=True):
         """runs ops on a fresh build of nf0.  Returns (violation key or None, detail) - also registers model cases."""
         db, objs, rev = build(C, nf0)
+        nf0 = canon_nf(nf0)               # what the oracle and the model see (the implementation was built in generated order)
         cur = copy_nf(nf0)
         found = None
-        searching = stream != "dup"
+        searching = True
         changed_steps = 0
         final = None
         for step, op in enumerate(ops):
+            if not in_envelope(cur, op):
+                # the history has left the property's quantifier (duplicate or empty names, empty pattern, foreign object):
+                # what the code does from here on is neither judged nor tied - the history ends before this call
+                ops = ops[:step]
+                if record:
+                    chk.count("history-cut-at-quantifier-boundary")
+                break
             exc = apply_impl(C, db, objs, op)
             after = observe(db, rev)
             if exc is not None:
@@ -522,7 +550,7 @@ def run(chk):
             cur = after
         if final is None:
             final = cur
-        if record:
+        if record and ops:
             exp_out = [[0]] if final == "raise" else [[1]] + groups_of(final)
             if len(ops) == 1:
                 add_model(CMD[ops[0][0]], op_groups(ops[0]) + groups_of(nf0), exp_out, dict(matrix=nf0, op=ops[0]))
@@ -684,7 +712,7 @@ def run(chk):
 
     # ---- random single operations ----
     n_single = 12000 if not thorough else 150000
-    streams = ["plain"] * 7 + ["star"] * 2 + ["dup"]
+    streams = ["plain"] * 7 + ["star"] * 2 + ["plain"]
     for _ in range(n_single):
         stream = rng.choice(streams)
         nf0 = gen_matrix(rng, stream)
@@ -692,13 +720,6 @@ def run(chk):
         if len(chk.samples) < 3 and op[0] in ("rensig", "delsig") and len(nf0["frames"]) >= 2:
             chk.sample(dict(matrix=nf0, op=op))
         explore(nf0, [op], stream)
-    # a few malformed calls: empty pattern (IndexError unless the matrix has no frame) - tie only
-    for _ in range(60):
-        stream = "plain"
-        nf0 = gen_matrix(rng, stream)
-        op = (rng.choice(["rensig", "renframe"]), "", "x")
-        run_history(nf0, [op], "dup")
-        chk.count("malformed-empty-pattern")
     # ---- histories ----
     n_hist = 5000 if not thorough else 60000
     for _ in range(n_hist):
@@ -745,11 +766,12 @@ def run(chk):
         db, objs, rev = build(C, nf0)
         gf = [rev[id(f)] for f in db.glob_frames(pf)]
         gs = [rev[id(s)] for f in db.frames for s in f.glob_signals(ps)]
-        if gf != [f[0] for f in nf0["frames"] if glob_oracle(pf, f[1])] or gs != [s[0] for f in nf0["frames"] for s in f[4] if glob_oracle(ps, s[1])]:
+        gf, gs = sorted(gf), sorted(gs)   # the property fixes no order of a lookup result: compared as sets (ids are distinct)
+        if gf != sorted(f[0] for f in nf0["frames"] if glob_oracle(pf, f[1])) or gs != sorted(s[0] for f in nf0["frames"] for s in f[4] if glob_oracle(ps, s[1])):
             chk.violation("glob-lookup", "glob_frames/glob_signals did not return exactly the matching objects",
                           dict(matrix=nf0, frame_pattern=pf, signal_pattern=ps), None, dict(frames=gf, signals=gs))
         chk.case(json.dumps([nf0, pf, ps]), bool(gf or gs))
-        add_model(1713, [codes(pf), codes(ps)] + groups_of(nf0), [gf, gs], dict(matrix=nf0, frame_pattern=pf, signal_pattern=ps))
+        add_model(1713, [codes(pf), codes(ps)] + groups_of(canon_nf(nf0)), [gf, gs], dict(matrix=nf0, frame_pattern=pf, signal_pattern=ps))
 
     chk.assumptions.append("model/Glob_c17.v covers patterns of literals, '*' and '?' only; the generators never emit '['")
     if not ok:
@@ -760,7 +782,12 @@ def run(chk):
     bad = 0
     explained = 0
     explained_idx = set()
-    differing = [i for i, (exp, o) in enumerate(zip(expect, out)) if core.parse_out(o) != exp]
+    def answer(i):
+        a = core.parse_out(out[i])
+        if lines[i].startswith("6b1 "):           # 1713 glob_frames/glob_signals: a lookup result is compared as a set
+            a = [sorted(g) for g in a]
+        return a
+    differing = [i for i, exp in enumerate(expect) if answer(i) != exp]
     if differing and "rename-frame-star-in-name" in known_keys:
         # while the rename_frame finding is recorded as known: a difference is explained when the model of the unpatched
         # code (cmd 1718 / 1719) reproduces the implementation
@@ -781,7 +808,7 @@ def run(chk):
         differing = still
     for i in differing:
         bad += 1
-        chk.tie_break("bulkops", info[i], core.parse_out(out[i]), expect[i])
+        chk.tie_break("bulkops", info[i], answer(i), expect[i])
     chk.ties["correspondence"] = {"suite": "bulkops (cmd 1701-1713: model vs implementation)", "cases": len(lines), "disagreements": bad,
                                   "explained_by_known_finding": explained}
     out = core.run_model(glob_lines)
@@ -801,7 +828,7 @@ def run(chk):
     chk.ties["spec_vs_oracle"] = {"suite": "spec_op (right-hand sides of the theorems, cmd 1714) vs the Python oracle", "cases": len(spec_lines),
                                   "disagreements": bad}
     # in-Coq shard
-    pool = [(l, e) for i, (l, e) in enumerate(zip(lines, expect)) if len(l) < 900 and i not in explained_idx] \
+    pool = [(l, e) for i, (l, e) in enumerate(zip(lines, expect)) if len(l) < 900 and i not in explained_idx and not l.startswith("6b1 ")] \
         + list(zip(glob_lines[:2000], glob_expect[:2000]))
     idx = rng.sample(range(len(pool)), min(300, len(pool)))
     shard = []
